@@ -1,3 +1,325 @@
 import B6.Driver.Common
-/-! Driver for C01 — stub (the check for this property is not built yet). -/
-def main : IO Unit := B6.Driver.run { σ := Unit, init := (), step := fun s _ _ => (s, .bad) }
+import B6.Model.CompactIndex
+/-!
+Driver for C01 (compact index round trip).  One case = the `src` lines of a feature set, then what the real
+`compact.BuildInMemory` + `compact.NewWorldFromData` produced for it:
+
+  `src pt <id> [tags]` | `src pa <id> [tags] <n|v|c|i>` | `src ar <id> [tags] [polys]` | `src re <id> [tags] [members]`  => `-`
+  `build`                    => `ok` | `err` | `crash` | `hang`
+  `nss`                      => `[hex …]`            the namespace table of the header
+  `strs`                     => `[hex …]`            the string table, in id order
+  `blk <i> t=<t> nss=a,b,c,d bits=<b> tagbits=<k>` => `[id:tag:hex …]`   every entry of feature block i, in iteration order
+  `blocks`                   => number of feature blocks
+  `load`                     => `ok` | `err`
+  `find <id>`                => `none` | `pt [tags]` | `pa [tags] [geom]` | `ar [tags] [polys]` | `re [tags] [members]` | `panic`
+  `each`                     => `[id …]`             EachFeature, one goroutine, emission order
+  `rels <id>`                => `[id …]`             FindRelationsByFeature, sorted
+  `reset`                    => `-`                  next corpus witness
+
+The model index is `B6.Model.CompactIndex.build strs fs` with `strs` = the implementation's string table (the
+string bijection is a parameter of the model and of the theorems); the driver checks that table against the
+spec (duplicate free, exactly the strings of the source, count-sorted).  Predicates evaluated on the
+implementation's answers: `build` must not fail when the model builds; `find` of every kept feature must be the
+canonical form of the source feature (`canon`); `each` must be a duplicate free permutation of the kept ids;
+`rels` of a kept feature must be the relations that list it.  Everything else is compared with the model
+(`diff`).  Known finding class `fid-tag-value` = `hasFidTag fs` (a hypothesis of `Accepts`).
+-/
+open B6.Driver B6.Model.CompactIndex B6.Model.Records B6.Model.Varint
+namespace B6.Driver.C01
+
+/-! ## parsing -/
+
+/-- split at spaces, keeping `[ … ]` groups together -/
+def tokens (s : String) : List String :=
+  let rec go (cs : List Char) (depth : Nat) (cur : List Char) (acc : List String) : List String :=
+    match cs with
+    | [] => (if cur.isEmpty then acc else String.ofList cur.reverse :: acc).reverse
+    | c :: rest =>
+      if c == ' ' && depth == 0 then go rest depth [] (if cur.isEmpty then acc else String.ofList cur.reverse :: acc)
+      else if c == '[' then go rest (depth + 1) (c :: cur) acc
+      else if c == ']' then go rest (depth - 1) (c :: cur) acc
+      else go rest depth (c :: cur) acc
+  go s.toList 0 [] []
+
+def parseNat? (s : String) : Option Nat := if s.isEmpty then none else s.toNat?
+def parseInt? (s : String) : Option Int :=
+  if s.startsWith "-" then (parseNat? (sdrop s 1)).map fun n => -(n : Int) else (parseNat? s).map fun n => (n : Int)
+
+def parseID (s : String) : Option FID :=
+  match s.splitOn ":" with
+  | [t, ns, v] => do
+    let t ← parseNat? t
+    let ns ← parseHex ns
+    let v ← parseNat? v
+    if v < 2 ^ 64 then pure ⟨t, ns, BitVec.ofNat 64 v⟩ else none
+  | _ => none
+
+def parseLL (s : String) : Option LatLng :=
+  match s.splitOn "," with
+  | [a, b] => do
+    let a ← parseInt? a
+    let b ← parseInt? b
+    pure ⟨BitVec.ofInt 32 a, BitVec.ofInt 32 b⟩
+  | _ => none
+
+def parseElem (s : String) : Option Elem :=
+  if s.startsWith "r" then (parseID (sdrop s 1)).map Elem.ref
+  else if s.startsWith "p" then (parseLL (sdrop s 1)).map Elem.ll
+  else none
+
+def splitNonEmpty (s : String) (sep : String) : List String := if s.isEmpty then [] else s.splitOn sep
+
+def parseVal (s : String) : Option Val :=
+  let body := sdrop s 2
+  if s.startsWith "s:" then (parseHex body).map Val.str
+  else if s.startsWith "p:" then (parseLL body).map Val.pt
+  else if s.startsWith "f:" then (parseID body).map Val.fid
+  else if s.startsWith "x:" then ((splitNonEmpty body ";").mapM parseElem).map Val.list
+  else none
+
+def parseTag (s : String) : Option FTag :=
+  match s.splitOn "=" with
+  | [k, v] => do
+    let k ← parseHex k
+    let v ← parseVal v
+    pure ⟨k, v⟩
+  | _ => none
+
+def parseTags (s : String) : Option (List FTag) := do (← parseBracket s).mapM parseTag
+
+def parsePoly (s : String) : Option Poly :=
+  let body := sdrop s 2
+  if s.startsWith "r:" then ((splitNonEmpty body ";").mapM parseID).map Poly.paths
+  else if s.startsWith "l:" then
+    ((splitNonEmpty body "|").mapM fun l => (splitNonEmpty l ";").mapM parseLL).map Poly.loops
+  else none
+
+def parseMember (s : String) : Option FMember :=
+  match s.splitOn "@" with
+  | [r, i] => do
+    let r ← parseHex r
+    let i ← parseID i
+    pure ⟨r, i⟩
+  | _ => none
+
+def parseFeature (ws : List String) : Option Feature :=
+  match ws with
+  | ["pt", i, ts] => do
+    let i ← parseID i
+    let ts ← parseTags ts
+    pure { id := i, tags := ts }
+  | ["pa", i, ts, o] => do
+    let i ← parseID i
+    let ts ← parseTags ts
+    let o ← (match o with
+      | "n" => some 0
+      | "v" => some 1
+      | "c" => some 2
+      | "i" => some 3
+      | _ => none)
+    pure { id := i, tags := ts, oracle := o }
+  | ["ar", i, ts, ps] => do
+    let i ← parseID i
+    let ts ← parseTags ts
+    let ps ← (← parseBracket ps).mapM parsePoly
+    pure { id := i, tags := ts, polys := ps }
+  | ["re", i, ts, ms] => do
+    let i ← parseID i
+    let ts ← parseTags ts
+    let ms ← (← parseBracket ms).mapM parseMember
+    pure { id := i, tags := ts, members := ms }
+  | _ => none
+
+/-! ## rendering (the harness's words) -/
+
+def rID (i : FID) : String := s!"{i.typ}:{renderHex i.ns}:{i.val.toNat}"
+def rLL (p : LatLng) : String := s!"{p.lat.toInt},{p.lng.toInt}"
+def rElem : Elem → String
+  | .ref i => "r" ++ rID i
+  | .ll p => "p" ++ rLL p
+def rVal : Val → String
+  | .str s => "s:" ++ renderHex s
+  | .pt p => "p:" ++ rLL p
+  | .fid i => "f:" ++ rID i
+  | .list xs => "x:" ++ ";".intercalate (xs.map rElem)
+def rTags (ts : List FTag) : String := renderList (ts.map fun t => renderHex t.key ++ "=" ++ rVal t.val)
+def rPoly : Poly → String
+  | .paths ids => "r:" ++ ";".intercalate (ids.map rID)
+  | .loops ls => "l:" ++ "|".intercalate (ls.map fun l => ";".intercalate (l.map rLL))
+def rMembers (ms : List FMember) : String := renderList (ms.map fun m => renderHex m.role ++ "@" ++ rID m.id)
+
+/-- the geometry words of a path read back: `Reference(i)` / `PointAt(i)` for `i < GeometryLen()` -/
+def rGeom (loc : FID → Option LatLng) (ts : List FTag) : String :=
+  let es := match getTag ts kPath with
+    | some (.list xs) => xs
+    | _ => []
+  renderList (es.map fun e => match e with
+    | .ref i => if i.valid then "r" ++ rID i ++ "@" ++ (match loc i with
+        | some p => rLL p
+        | none => "?") else "panic"
+    | .ll p => "p" ++ rLL p)
+
+def rFound (loc : FID → Option LatLng) (f : Feature) : String :=
+  match f.id.typ with
+  | 0 => "pt " ++ rTags f.tags
+  | 1 => "pa " ++ rTags f.tags ++ " " ++ rGeom loc f.tags
+  | 2 => "ar " ++ rTags f.tags ++ " " ++ renderList (f.polys.map rPoly)
+  | _ => "re " ++ rTags f.tags ++ " " ++ rMembers f.members
+
+def rEntry (e : B6.Model.Containers.Entry) : String := s!"{e.id.toNat}:{e.tag.toNat}:{renderHex e.data}"
+
+/-! ## the string table spec -/
+
+def stringsOf (f : Feature) : List Str :=
+  (f.tags.flatMap fun t => t.key :: (match t.val with
+    | .str s => [s]
+    | _ => [])) ++ f.members.map (·.role)
+
+def countOf (all : List Str) (s : Str) : Nat := (all.filter (· == s)).length
+
+def nonIncreasing : List Nat → Bool
+  | a :: b :: rest => decide (b ≤ a) && nonIncreasing (b :: rest)
+  | _ => true
+
+/-- duplicate free, exactly the strings of the source, counts non-increasing (`sort.Sort` by count) -/
+def stringsOk (fs : List Feature) (strs : List Str) : Bool :=
+  let all := fs.flatMap stringsOf
+  strs.eraseDups.length == strs.length && all.all (strs.contains ·) && strs.all (all.contains ·) &&
+    nonIncreasing (strs.map (countOf all))
+
+/-- a table for predicting the outcome of a build whose table we never saw -/
+def defaultStrs (fs : List Feature) : List Str := (fs.flatMap stringsOf).eraseDups
+
+/-! ## state -/
+
+structure St where
+  fs : List Feature := []          -- in source order
+  implBuild : String := ""
+  ix : Option Index := none        -- the model index (built with the implementation's string table)
+  keptIds : List FID := []
+  known : Bool := false            -- the case is in the known finding class
+
+def insertSortFID (l : List FID) : List FID := l.foldr insertFIDdup []
+where insertFIDdup (x : FID) : List FID → List FID
+  | [] => [x]
+  | y :: ys => if x.lt y then x :: y :: ys else y :: insertFIDdup x ys
+
+/-- the relations that list `id` as a member, sorted like the harness sorts them -/
+def specRelations (fs : List Feature) (id : FID) : List FID :=
+  insertSortFID ((fs.filter fun r => r.id.typ == 3 && r.members.any fun m => m.id == id).map (·.id)).eraseDups
+
+def judge (impl model : String) (spec : Option String) (clause : String) (known : Bool) : Verdict :=
+  match spec with
+  | some s =>
+    if impl == s then (if impl == model then .ok else .diff model)
+    else .propfail (if known then clause ++ " class=fid-tag-value" else clause)
+  | none => if impl == model then .ok else .diff model
+
+def parseBlkHeader (ws : List String) : Option (Nat × Nat × List Nat × Nat × Nat) :=
+  match ws with
+  | [i, t, nss, bits, tb] => do
+    let i ← parseNat? i
+    let t ← parseNat? (sdrop t 2)
+    let nss ← ((sdrop nss 4).splitOn ",").mapM parseNat?
+    let bits ← parseNat? (sdrop bits 5)
+    let tb ← parseNat? (sdrop tb 8)
+    pure (i, t, nss, bits, tb)
+  | _ => none
+
+def step (st : St) (op impl : String) : St × Verdict :=
+  match tokens op with
+  | "src" :: rest =>
+    match parseFeature rest with
+    | some f => ({ st with fs := st.fs ++ [f] }, if impl == "-" then .ok else .bad)
+    | none => (st, .bad)
+  | ["reset"] => ({}, .ok)
+  | ["build"] =>
+    let st := { st with implBuild := impl, known := hasFidTag st.fs }
+    match build (defaultStrs st.fs) st.fs with
+    | .ok _ =>
+      if impl == "ok" then (st, .ok) else (st, .propfail "build-fails-on-accepted-input")
+    | .error .fidTag =>
+      if impl == "ok" then (st, .skip) else (st, .propfail "build-fails-on-accepted-input class=fid-tag-value")
+    | .error (.panic why) =>
+      -- the model says the Go code panics on this input (outside `Accepts`)
+      if impl == "ok" then (st, .diff ("panic " ++ why)) else (st, .ok)
+  | ["nss"] =>
+    if st.known then (st, .skip) else
+    (st, judge impl (renderList ((nsTable st.fs).map renderHex)) none "" false)
+  | ["strs"] =>
+    if st.known then (st, .skip) else
+    match (parseBracket impl).bind (·.mapM parseHex) with
+    | none => (st, .bad)
+    | some strs =>
+      if !stringsOk st.fs strs then (st, .propfail "string-table-not-a-count-sorted-bijection") else
+      match build strs st.fs with
+      | .ok ix => ({ st with ix := some ix, keptIds := (st.fs.filter (kept st.fs)).map (·.id) }, .ok)
+      | .error _ => (st, .diff "model-build-fails")
+  | "blk" :: rest =>
+    if st.known then (st, .skip) else
+    match parseBlkHeader rest, st.ix with
+    | some (i, t, nss, bits, tb), some ix =>
+      match ix.blocks[i]? with
+      | none => (st, .diff "no-such-block")
+      | some b =>
+        let hdr := s!"t={b.typ} nss={b.hdr.point.toNat},{b.hdr.path.toNat},{b.hdr.area.toNat},{b.hdr.relation.toNat} bits={b.bits} tagbits={b.tagBits}"
+        let mine := s!"t={t} nss={",".intercalate (nss.map toString)} bits={bits} tagbits={tb}"
+        let model := renderList ((iterIds b).map rEntry)
+        if hdr != mine then (st, .diff hdr) else (st, judge impl model none "" false)
+    | _, _ => (st, .bad)
+  | ["blocks"] =>
+    if st.known then (st, .skip) else
+    match st.ix with
+    | some ix => (st, judge impl (toString ix.blocks.length) none "" false)
+    | none => (st, .bad)
+  | ["load"] => (st, if impl == "ok" then .ok else .propfail "load-fails")
+  | ["find", i] =>
+    match parseID i with
+    | none => (st, .bad)
+    | some id =>
+      let src := st.fs.find? (·.id == id)
+      let spec : Option String := match src with
+        | some f => if kept st.fs f then some (rFound (sourceLocation st.fs) (canon st.fs f)) else none
+        | none => none
+      if st.known then
+        -- only the predicate can be evaluated: the model has no index for this class
+        match spec with
+        | some s => (st, if impl == s then .ok else .propfail "find-differs-from-source class=fid-tag-value")
+        | none => (st, .skip)
+      else
+      match st.ix with
+      | none => (st, .bad)
+      | some ix =>
+        let model := match find ix id with
+          | none => "none"
+          | some none => "panic"
+          | some (some f) => rFound (location ix) f
+        (st, judge impl model spec "find-differs-from-source" false)
+  | ["each"] =>
+    match (parseBracket impl).bind (·.mapM parseID) with
+    | none => (st, if st.known then .skip else .propfail "each-fails")
+    | some ids =>
+      let keptIds := if st.known then (st.fs.filter (kept st.fs)).map (·.id) else st.keptIds
+      let okPerm := ids.eraseDups.length == ids.length && ids.length == keptIds.length && keptIds.all (ids.contains ·)
+      if !okPerm then (st, .propfail (if st.known then "each-not-a-permutation-of-the-kept-ids class=fid-tag-value" else "each-not-a-permutation-of-the-kept-ids")) else
+      if st.known then (st, .ok) else
+      match st.ix with
+      | some ix => (st, judge impl (renderList ((each ix).map rID)) none "" false)
+      | none => (st, .bad)
+  | ["rels", i] =>
+    if st.known then (st, .skip) else
+    match parseID i, st.ix with
+    | some id, some ix =>
+      let model := match relationsOf ix id with
+        | some l => renderList ((insertSortFID l).map rID)
+        | none => "panic"
+      let spec := if st.keptIds.contains id then some (renderList ((specRelations st.fs id).map rID)) else none
+      (st, judge impl model spec "relations-of-member-differ-from-source" false)
+    | _, _ => (st, .bad)
+  | _ => (st, .bad)
+
+def family : Family := { σ := St, init := {}, step := step }
+
+end B6.Driver.C01
+
+def main : IO Unit := B6.Driver.run B6.Driver.C01.family
